@@ -1,7 +1,7 @@
 SPECIFICATION Spec
 CONSTANTS
   MaxPool = 3
-  Strategy = "rr"
+  Strategies = {"rr"}
   Keys = {"-"}
   Pools = {1, 2, 3}
   Presets = {0}
